@@ -1,4 +1,8 @@
-"""C19 -- file-accepting services stay inside their directory and publish atomically."""
+"""C19 -- file-accepting services stay inside their directory and publish atomically.
+
+Registry (save_service_data): crash before every os-level operation, every operation FAILING with an errno (persistent /
+transient), and a second complete writer at the single-writer interleaving points.  Observation recorded for the reader
+(outside the property, see REGISTRY_NOTE below): the temporary name is fixed, overlapping writers can tear services.json."""
 import glob, json, os, posixpath, stat
 
 from harness import common
@@ -23,7 +27,9 @@ def run(ctx):
                        "a crash is modelled as 'no further os-level operation is performed' (exception injected "
                        "from wrapped open/write/close/rename/chmod/unlink)",
                        "hard links / symlinks planted concurrently by another local process are not modelled "
-                       "(pre-existing symlinks are)"]
+                       "(pre-existing symlinks are)",
+                       "one registry writer at a time (overlapping save_service_data calls share services.json.tmp and are "
+                       "outside the property); an injected OS fault is persistent for its kind of operation or transient"]
     ok, log = ctx.coq_build(["props/C19.vo"])
     from harness import c19_impl as impl
     before = len(ctx.failures)
@@ -173,6 +179,12 @@ def corpus(ctx, impl):
             one_upload(ctx, impl, w["name"], [b.encode() for b in w["blocks"]],
                        tuple(w["ending"]) if isinstance(w.get("ending"), list) else "done", w.get("variant", "empty"),
                        sig=w["signature"], src=os.path.basename(p))
+        elif w["kind"] == "registry-fault":
+            ops = [o[0] for o in reg_ops(impl, REG_OLD, REG_NEW)]
+            reg_fault(ctx, impl, REG_OLD, REG_NEW, ops.index(w["op"]), w["errno"], w["persistent"], sig=w["signature"])
+        elif w["kind"] == "registry-two-writers":
+            ops = [o[0] for o in reg_ops(impl, REG_OLD, REG_NEW)]
+            reg_two_writers(ctx, impl, REG_OLD, REG_NEW, REG_B, ops.index(w["at"]), sig=w["signature"])
         elif w["kind"] == "gatherer":
             one_gather(ctx, impl, w["name"], sig=w["signature"])
         elif w["kind"] == "publisher":
@@ -521,7 +533,97 @@ def upload_correspond(ctx, cases, jobs):
 # ---------------------------------------------------------------------------
 # 3. registry
 
+REG_ERRNOS = ["EACCES", "EROFS", "ENOSPC", "EIO", "ENOENT"]
+# Second writer.  C19 quantifies over crashes/faults of ONE writer at a time (flappserver create/add are one-shot CLI
+# invocations by the administrator), so the sweep runs the second save_service_data only at the interleaving points that are
+# well defined for a single-writer protocol: before the first writer's open(), between its close() and its rename() (the
+# temporary it is about to publish has been consumed: ENOENT), and after it.  OBSERVATION (decided by the lead to be outside
+# the property, not a finding): save_service_data always uses the fixed temporary name services.json.tmp, so a second writer
+# that completes while the first one is between open() and close() truncates and publishes the inode the first still has
+# open; the first writer's buffered text is then flushed INTO the published services.json (JSONDecodeError when it is the
+# shorter one).  ALL_INTERLEAVINGS = True sweeps every point and shows it; it stays off.
+ALL_INTERLEAVINGS = False
+REGISTRY_NOTE = ("observation, outside C19 (single writer): save_service_data uses the fixed temporary name services.json.tmp; "
+                 "two OVERLAPPING writers (second completes between the first's open and close) can tear services.json; the "
+                 "second-writer sweep therefore covers only the points before open / between close and rename / after")
+
+
+def reg_setup(impl, old):
+    arena, target, sent = impl.fresh("reg")
+    if old is not None:
+        impl.save_registry(target, old)
+    return arena, target, os.path.join(target, "services.json")
+
+
+def reg_judge(ctx, impl, sig, what, target, reg, oldv, old_loaded, versions, arena, outside0, replay):
+    """the registry on disk must be, and must LOAD as, the complete old version or one of the complete new versions"""
+    v = view(reg)
+    okv = (v == oldv)
+    if not okv and v[0] == 2:
+        try:
+            okv = json.loads(bytes(v[1:]).decode()) in versions
+        except ValueError:
+            okv = False
+    try:
+        loaded = impl.load_registry(target)
+        okl = loaded == old_loaded or loaded in versions
+        lw = "loads as something else" if not okl else ""
+    except Exception as e:
+        okl, lw = False, "cannot be loaded (%s)" % type(e).__name__
+    left = sorted(set(os.listdir(target)) - {"services.json", "services.json.tmp"})
+    if not okv or not okl or left or impl.outside_snapshot(arena) != outside0:
+        ctx.fail(sig, "%s: services.json is %r (before: %r) %s, other entries %r"
+                 % (what, bytes(v[1:]) if v[0] == 2 else v, bytes(oldv[1:]) if oldv[0] == 2 else oldv, lw, left), replay=replay)
+    return v
+
+
+def reg_fault(ctx, impl, old, new, k, ename, persistent, sig=None):
+    """the k-th os-level operation of save_service_data(new) fails with errno `ename`"""
+    import errno
+    arena, target, reg = reg_setup(impl, old)
+    oldv, old_loaded, outside0 = view(reg), impl.load_registry(target), impl.outside_snapshot(arena)
+    r = impl.Recorder(arena, fail_at=k, fail_errno=getattr(errno, ename), persistent=persistent)
+    out = impl.save_registry(target, new, r)
+    r.cleanup()
+    return reg_judge(ctx, impl, sig or "oracle/registry-lost-after-failed-operation",
+                     "operation %d of save_service_data fails with %s (%s; call -> %s; operations %r)"
+                     % (k, ename, "persistently" if persistent else "once", out, r.ops[-4:]),
+                     target, reg, oldv, old_loaded, [new], arena, outside0,
+                     dict(old=old, new=new, failing_op=k, errno=ename, persistent=persistent, ops=r.ops))
+
+
+def reg_two_writers(ctx, impl, old, new, new_b, i, sig=None):
+    """a second save_service_data(new_b) runs to completion just before the i-th operation of save_service_data(new)"""
+    arena, target, reg = reg_setup(impl, old)
+    oldv, old_loaded, outside0 = view(reg), impl.load_registry(target), impl.outside_snapshot(arena)
+    res = []
+    r = impl.Recorder(arena, nest_at=i, nest_fn=lambda: res.append(impl.save_registry(target, new_b)))
+    out = impl.save_registry(target, new, r)
+    r.cleanup()
+    return reg_judge(ctx, impl, sig or "oracle/registry-lost-with-two-writers",
+                     "a second writer completes just before operation %d of the first (first -> %s, second -> %s; first's operations %r)"
+                     % (i, out, res, [o[0] for o in r.ops][-4:]),
+                     target, reg, oldv, old_loaded, [new, new_b], arena, outside0,
+                     dict(old=old, new=new, second=new_b, second_runs_before_op=i, ops=r.ops))
+
+
+def reg_ops(impl, old, new):
+    arena, target, reg = reg_setup(impl, old)
+    r = impl.Recorder(arena)
+    impl.save_registry(target, new, r)
+    r.cleanup()
+    return r.ops
+
+
+REG_OLD = {"version": 1, "services": {"swiss0": {"relative_basedir": "services/0", "type": "upload-file", "args": ["/srv/in"],
+                                                 "comment": "the old registry"}}}
+REG_NEW = {"version": 1, "services": {"swiss1": {"relative_basedir": "services/1", "type": "run-command", "args": ["d", "ls"],
+                                                 "comment": None}}}
+REG_B = {"version": 1, "services": {}}
+
+
 def registry_check(ctx, impl, jobs):
+    ctx.notes.append(REGISTRY_NOTE)
     datas = [{"version": 1, "services": {}},
              {"version": 1, "services": {"swiss1": {"relative_basedir": "services/1", "type": "upload-file",
                                                     "args": ["/tmp/x"], "comment": None}}}]
@@ -572,20 +674,41 @@ def registry_check(ctx, impl, jobs):
                     ctx.fail("oracle/registry-torn", "crash before operation %d of save_service_data: services.json is %r (old %r), "
                              "other entries %r" % (k, bytes(v[1:]), bytes(oldv[1:]), left),
                              replay=dict(old=old, new=new, crash_before_op=k, ops=r2.ops))
+            # (b) every operation FAILS with an errno instead (persistently / once); the program's own handlers run
+            fviews = []
+            for k in range(nops):
+                kind = rec.ops[k][0]
+                enames = REG_ERRNOS if kind in ("open", "close", "rename") else [REG_ERRNOS[k % len(REG_ERRNOS)], "EIO"]
+                for ename in dict.fromkeys(enames):
+                    for persistent in (True, False):
+                        v = reg_fault(ctx, impl, old, new, k, ename, persistent)
+                        ctx.case(["registry-fault", old, new, k, ename, persistent], nontrivial=True)
+                        ctx.hist("registry_fault", "%s-%s" % (kind, ename))
+                        if persistent and ename == "EIO":
+                            fviews.append(v)
+            # (c) a second writer
+            idx_rename = [o[0] for o in rec.ops].index("rename")
+            points = range(nops + 1) if ALL_INTERLEAVINGS else [0, idx_rename, nops]
+            for new_b in [d for d in datas[:3] if d is not new][:2]:
+                for i in points:
+                    reg_two_writers(ctx, impl, old, new, new_b, i)
+                    ctx.case(["registry-two-writers", old, new, new_b, i], nontrivial=0 < i < nops)
+                    ctx.hist("registry_second_writer_at", "rename" if i == idx_rename else i)
             cases.append(dict(target=target, old=None if old is None else bytes(view_after_save(impl, old)),
-                              chunks=list(rec.written), ops=canon_ops(rec.ops, arena), views=views))
+                              chunks=list(rec.written), ops=canon_ops(rec.ops, arena), views=views, fviews=fviews))
     terms, exp = [], []
     for c in cases:
         ents = [] if c["old"] is None else [(os.path.join(c["target"], "services.json"), ("F", c["old"]))]
         es, cs = coq_ents(ents)
         terms.append("(%s, %s, (%s, %s))" % (cb(c["target"]), coq_list([cb(x) for x in c["chunks"]]), es, cs))
-        exp.append(enc_ops(c["ops"]) + [[100], [0]] + c["views"])
+        exp.append(enc_ops(c["ops"]) + [[100], [0]] + c["views"] + [[102]] + c["fviews"])
     jobs.append(make_job("C19_registry_0", "correspondence/registry", "", "str * list (list N) * (list (str * ent) * list (list N))", terms,
                          """Definition obs (c : str * list (list N) * (list (str * ent) * list (list N))) : list (list N) :=
   let '(base, chunks, (ents, cont)) := c in
   let s0 := mk_st ents cont in
   let ops := registry_ops base chunks in
-  flat_map enc_op (effective s0 ops) ++ [[100%N]; [b2n (failed (run s0 ops))]] ++ crash_views s0 ops (registry_final base).
+  flat_map enc_op (effective s0 ops) ++ [[100%N]; [b2n (failed (run s0 ops))]] ++ crash_views s0 ops (registry_final base)
+  ++ [[102%N]] ++ fault_views s0 ops (registry_final base).
 """, exp, lambda i: "registry rewrite #%d (%d chunks)" % (i, len(cases[i]["chunks"]))))
 
 
